@@ -1,1 +1,671 @@
-//! (module owned by one property family; see AGENT_GUIDE.md)
+//! G-config: configuration documents over the `Emmyrc` key space.
+//!
+//! The key space is *harvested at run time* from `crates/emmylua_code_analysis/resources/schema.json`
+//! of the tree under test (so new settings are picked up), never hard-coded. The generator keeps an AST
+//! of its own — a list of [`Setting`]s (path + value) with a [spelling](spell) per setting — and renders
+//! it to JSON (or to a Lua table for `.emmyrc.lua`), so that oracles can reason about what was *meant*
+//! independently of how it was spelled.
+//!
+//! * [`KeySpace::harvest`] — leaf settings with their value kinds (bool / int / string / enum / arrays / maps …).
+//! * [`valid_value`] / [`wrong_value`] / [`path_string`] — values that deserialize, values of the wrong
+//!   type, hostile path strings (`~`, `~x`, `~é`, `~/`, `${workspaceFolder}`, `$VAR`, `{env:…}`, NUL …).
+//! * [`spell`] + [`render`] — flat (`"a.b.c"`), nested (`{"a":{"b":{"c":…}}}`) and mixed spellings.
+//! * [`hostile_doc`] — C31 documents: random settings, wrong types, colliding keys (a key that is both a
+//!   value and a prefix, in both orders and depths), unknown keys, non-object roots.
+//! * [`to_lua`] — the same document as a Lua table constructor.
+
+use crate::rng::Rng;
+use serde_json::{Map, Value, json};
+
+#[derive(Clone, Debug, PartialEq)]
+pub enum ValKind {
+    Bool,
+    Int { min: i64, max: i64 },
+    Str,
+    Enum(Vec<String>),
+    Array(Box<ValKind>),
+    /// object with free keys (`additionalProperties`)
+    Map(Box<ValKind>),
+    /// `workspace.library` / `packages` item: a path string or `{path, ignoreDir, ignoreGlobs}`
+    PathItem,
+    /// object with fixed string fields inside an array (e.g. moduleMap items)
+    Record(Vec<(String, ValKind)>),
+    Any,
+}
+
+#[derive(Clone, Debug)]
+pub struct KeyInfo {
+    /// e.g. `["workspace", "library"]`
+    pub path: Vec<String>,
+    pub kind: ValKind,
+    pub nullable: bool,
+    /// value (or its elements) goes through `pre_process_path`
+    pub is_path: bool,
+}
+
+impl KeyInfo {
+    pub fn dotted(&self) -> String {
+        self.path.join(".")
+    }
+    pub fn is_array(&self) -> bool {
+        matches!(self.kind, ValKind::Array(_))
+    }
+    pub fn is_scalar(&self) -> bool {
+        matches!(self.kind, ValKind::Bool | ValKind::Int { .. } | ValKind::Str | ValKind::Enum(_))
+    }
+}
+
+#[derive(Clone, Debug)]
+pub struct KeySpace {
+    pub keys: Vec<KeyInfo>,
+    pub schema_path: String,
+}
+
+/// settings whose strings are expanded by `Emmyrc::pre_process_emmyrc`
+const PATH_KEYS: &[&str] = &["workspace.workspaceRoots", "workspace.library", "workspace.packages", "workspace.ignoreDir", "resource.paths"];
+
+impl KeySpace {
+    /// Locate and read the schema of the tree under test. `None` when it cannot be found/parsed.
+    pub fn harvest(repo: &str) -> Option<KeySpace> {
+        let candidates = [
+            format!("{repo}/crates/emmylua_code_analysis/resources/schema.json"),
+            format!("{repo}/crates/emmylua_code_analysis/resources/schema/schema.json"),
+            format!("{repo}/resources/schema.json"),
+        ];
+        for p in candidates {
+            if let Ok(s) = std::fs::read_to_string(&p) {
+                if let Ok(v) = serde_json::from_str::<Value>(&s) {
+                    let mut keys = Vec::new();
+                    walk(&v, &v, &mut Vec::new(), false, &mut keys, 0);
+                    keys.retain(|k| !k.path.is_empty());
+                    keys.sort_by(|a, b| a.path.cmp(&b.path));
+                    if !keys.is_empty() {
+                        return Some(KeySpace { keys, schema_path: p });
+                    }
+                }
+            }
+        }
+        None
+    }
+
+    pub fn pick<'a>(&'a self, rng: &mut Rng) -> &'a KeyInfo {
+        &self.keys[rng.below(self.keys.len())]
+    }
+
+    pub fn pick_where<'a>(&'a self, rng: &mut Rng, f: impl Fn(&KeyInfo) -> bool) -> Option<&'a KeyInfo> {
+        let c: Vec<&KeyInfo> = self.keys.iter().filter(|k| f(k)).collect();
+        if c.is_empty() { None } else { Some(c[rng.below(c.len())]) }
+    }
+
+    pub fn find(&self, dotted: &str) -> Option<&KeyInfo> {
+        self.keys.iter().find(|k| k.dotted() == dotted)
+    }
+}
+
+fn deref<'a>(root: &'a Value, mut n: &'a Value) -> &'a Value {
+    for _ in 0..16 {
+        match n.get("$ref").and_then(|r| r.as_str()) {
+            Some(r) => {
+                let name = r.rsplit('/').next().unwrap_or("");
+                match root.get("$defs").or_else(|| root.get("definitions")).and_then(|d| d.get(name)) {
+                    Some(t) => n = t,
+                    None => return n,
+                }
+            }
+            None => return n,
+        }
+    }
+    n
+}
+
+fn type_names(n: &Value) -> Vec<String> {
+    match n.get("type") {
+        Some(Value::String(s)) => vec![s.clone()],
+        Some(Value::Array(a)) => a.iter().filter_map(|x| x.as_str().map(|s| s.to_string())).collect(),
+        _ => vec![],
+    }
+}
+
+/// (node without the `null` alternative, nullable)
+fn strip_null<'a>(root: &'a Value, n: &'a Value) -> (&'a Value, bool) {
+    let n = deref(root, n);
+    for key in ["anyOf", "oneOf"] {
+        if let Some(alts) = n.get(key).and_then(|a| a.as_array()) {
+            let non_null: Vec<&Value> = alts.iter().filter(|a| a.get("type").and_then(|t| t.as_str()) != Some("null")).collect();
+            if non_null.len() == 1 && non_null.len() < alts.len() {
+                return (deref(root, non_null[0]), true);
+            }
+        }
+    }
+    (n, type_names(n).iter().any(|t| t == "null"))
+}
+
+fn kind_of(root: &Value, n: &Value, depth: usize) -> ValKind {
+    if depth > 6 {
+        return ValKind::Any;
+    }
+    let (n, _) = strip_null(root, n);
+    // string enums
+    if let Some(e) = n.get("enum").and_then(|e| e.as_array()) {
+        let vals: Vec<String> = e.iter().filter_map(|v| v.as_str().map(|s| s.to_string())).collect();
+        if !vals.is_empty() {
+            return ValKind::Enum(vals);
+        }
+    }
+    for key in ["oneOf", "anyOf"] {
+        if let Some(alts) = n.get(key).and_then(|a| a.as_array()) {
+            let mut vals = Vec::new();
+            let mut all_const = true;
+            for a in alts {
+                let a = deref(root, a);
+                if let Some(c) = a.get("const").and_then(|c| c.as_str()) {
+                    vals.push(c.to_string());
+                } else if let Some(e) = a.get("enum").and_then(|e| e.as_array()) {
+                    vals.extend(e.iter().filter_map(|v| v.as_str().map(|s| s.to_string())));
+                } else {
+                    all_const = false;
+                }
+            }
+            if all_const && !vals.is_empty() {
+                return ValKind::Enum(vals);
+            }
+            // string | {path: …}
+            let has_str = alts.iter().any(|a| type_names(deref(root, a)).iter().any(|t| t == "string"));
+            let has_path_obj = alts.iter().any(|a| deref(root, a).get("properties").and_then(|p| p.get("path")).is_some());
+            if has_str && has_path_obj {
+                return ValKind::PathItem;
+            }
+            return ValKind::Any;
+        }
+    }
+    let tn = type_names(n);
+    let t = tn.iter().find(|t| *t != "null").map(|s| s.as_str()).unwrap_or("");
+    match t {
+        "boolean" => ValKind::Bool,
+        "integer" | "number" => {
+            let min = n.get("minimum").and_then(|m| m.as_i64()).unwrap_or_else(|| if n.get("format").and_then(|f| f.as_str()).map(|f| f.starts_with('u')).unwrap_or(false) { 0 } else { -1000 });
+            let max = n.get("maximum").and_then(|m| m.as_i64()).unwrap_or(100_000);
+            ValKind::Int { min, max }
+        }
+        "string" => ValKind::Str,
+        "array" => ValKind::Array(Box::new(n.get("items").map(|i| kind_of(root, i, depth + 1)).unwrap_or(ValKind::Any))),
+        "object" => {
+            if let Some(p) = n.get("properties").and_then(|p| p.as_object()) {
+                ValKind::Record(p.iter().map(|(k, v)| (k.clone(), kind_of(root, v, depth + 1))).collect())
+            } else if let Some(ap) = n.get("additionalProperties") {
+                if ap.is_object() { ValKind::Map(Box::new(kind_of(root, ap, depth + 1))) } else { ValKind::Map(Box::new(ValKind::Any)) }
+            } else {
+                ValKind::Map(Box::new(ValKind::Any))
+            }
+        }
+        _ => ValKind::Any,
+    }
+}
+
+fn walk(root: &Value, n: &Value, path: &mut Vec<String>, nullable: bool, out: &mut Vec<KeyInfo>, depth: usize) {
+    let (n, nul) = strip_null(root, n);
+    let nullable = nullable || nul;
+    let props = n.get("properties").and_then(|p| p.as_object());
+    if let (Some(props), true) = (props, depth < 4) {
+        for (k, v) in props {
+            path.push(k.clone());
+            walk(root, v, path, false, out, depth + 1);
+            path.pop();
+        }
+        return;
+    }
+    let dotted = path.join(".");
+    out.push(KeyInfo { path: path.clone(), kind: kind_of(root, n, 0), nullable, is_path: PATH_KEYS.contains(&dotted.as_str()) });
+}
+
+// ───────────────────────── values ─────────────────────────
+
+const WORDS: &[&str] = &["a", "b", "foo", "bar", "x1", "undefined-global", "print", "require", "src", "lib", "test", "utf-8", "é", "名", "lua"];
+
+/// Hostile path strings for every path-typed setting (C31).
+pub const PATH_STRINGS: &[&str] = &[
+    "~", "~x", "~é", "~/", "~/lib", "~~", "~😀", "~\u{0}", "./", "./src", ".", "..", "", " ", "/", "/abs/lib", "rel/lib", "$", "$$", "${", "${}", "${workspaceFolder}",
+    "${workspaceFolder}/lib", "{workspaceFolder}", "{workspaceFolder", "workspaceFolder}", "$HOME", "$HOME/x", "$VERIF_TILDE", "$VERIF_EMPTY", "$VERIF_UNSET_VARIABLE",
+    "$VERIF_TILDE$VERIF_EMPTY", "{env:HOME}", "{env:VERIF_TILDE}", "{env:VERIF_UNSET_VARIABLE}", "{env:}", "{env:", "{luarocks}", "{}", "{{}}", "{x}", "~$", "$~", "~{env:VERIF_EMPTY}",
+    "{env:VERIF_TILDE}é", "a\u{0}b", "\u{0}", "é", "名/前", "C:\\lib", "\\\\server\\share", "~\\x", "file:///x", "a/./b/../c", "//double//slash", "./~", "~.",
+];
+
+/// Environment the path expansion of C31 runs under (set once per process by the property).
+pub const PATH_ENV: &[(&str, &str)] = &[("VERIF_TILDE", "~"), ("VERIF_EMPTY", ""), ("VERIF_TILDE_E", "~é")];
+
+pub fn path_string(rng: &mut Rng) -> String {
+    if rng.chance(1, 6) {
+        // compose two fragments
+        format!("{}{}", rng.pick(PATH_STRINGS), rng.pick(PATH_STRINGS))
+    } else {
+        rng.pick(PATH_STRINGS).to_string()
+    }
+}
+
+fn word(rng: &mut Rng) -> String {
+    rng.pick(WORDS).to_string()
+}
+
+/// A value that the serde types accept for this kind (used where a *valid* configuration is needed).
+pub fn valid_value(rng: &mut Rng, kind: &ValKind) -> Value {
+    match kind {
+        ValKind::Bool => json!(rng.bool()),
+        ValKind::Int { min, max } => {
+            let lo = (*min).max(0);
+            let hi = (*max).min(200).max(lo);
+            json!(lo + rng.below((hi - lo + 1) as usize) as i64)
+        }
+        ValKind::Str => json!(word(rng)),
+        ValKind::Enum(v) => json!(v[rng.below(v.len())]),
+        ValKind::Array(item) => {
+            let n = rng.range(0, 4);
+            Value::Array((0..n).map(|_| valid_value(rng, item)).collect())
+        }
+        ValKind::Map(item) => {
+            let n = rng.range(0, 3);
+            let mut m = Map::new();
+            for _ in 0..n {
+                // keys without dots (a dot inside a free key is a different question from C32's)
+                m.insert(word(rng).replace('.', "_"), valid_value(rng, item));
+            }
+            Value::Object(m)
+        }
+        ValKind::PathItem => {
+            if rng.bool() {
+                json!(format!("/{}/{}", word(rng), word(rng)))
+            } else {
+                json!({"path": format!("/{}", word(rng)), "ignoreDir": [word(rng)], "ignoreGlobs": ["**/*.spec.lua"]})
+            }
+        }
+        ValKind::Record(fields) => {
+            let mut m = Map::new();
+            for (k, kd) in fields {
+                m.insert(k.clone(), valid_value(rng, kd));
+            }
+            Value::Object(m)
+        }
+        ValKind::Any => json!(null),
+    }
+}
+
+/// A value whose JSON type is (most likely) not what the setting expects.
+pub fn wrong_value(rng: &mut Rng) -> Value {
+    match rng.below(14) {
+        0 => json!(null),
+        1 => json!(true),
+        2 => json!(-1),
+        3 => json!(1.5e300),
+        4 => json!(18446744073709551615u64),
+        5 => json!(""),
+        6 => json!("x".repeat(rng.range(1, 200))),
+        7 => json!([]),
+        8 => json!({}),
+        9 => json!([null, 1, "a", [], {}]),
+        10 => json!({"a": {"b": {"c": 1}}}),
+        11 => json!({"": 1, ".": 2, "a.": 3, ".a": 4, "a..b": 5}),
+        12 => json!([[[[[[]]]]]]),
+        _ => json!("\u{0}"),
+    }
+}
+
+/// Value for C31: valid, wrong-typed, or (for path settings) a hostile path string in every shape
+/// the setting accepts.
+pub fn hostile_value(rng: &mut Rng, key: &KeyInfo) -> Value {
+    if key.is_path && !rng.chance(1, 5) {
+        let n = rng.range(1, 3);
+        let items: Vec<Value> = (0..n)
+            .map(|_| {
+                let p = path_string(rng);
+                if key.kind == ValKind::Array(Box::new(ValKind::PathItem)) && rng.chance(1, 3) {
+                    json!({"path": p, "ignoreDir": [path_string(rng), path_string(rng)], "ignoreGlobs": [path_string(rng)]})
+                } else {
+                    json!(p)
+                }
+            })
+            .collect();
+        return Value::Array(items);
+    }
+    match rng.below(10) {
+        0..=5 => valid_value(rng, &key.kind),
+        6 if key.nullable => json!(null),
+        _ => wrong_value(rng),
+    }
+}
+
+// ───────────────────────── spelling / rendering ─────────────────────────
+
+#[derive(Clone, Debug)]
+pub struct Setting {
+    pub path: Vec<String>,
+    pub value: Value,
+    /// bit i set = segments i and i+1 are joined with a dot into one JSON key
+    /// (0 = fully nested, all ones = fully flat)
+    pub joins: u32,
+}
+
+impl Setting {
+    pub fn dotted(&self) -> String {
+        self.path.join(".")
+    }
+    pub fn spelling_name(&self) -> &'static str {
+        spelling_name(self.path.len(), self.joins)
+    }
+}
+
+pub fn flat_mask(len: usize) -> u32 {
+    if len <= 1 { 0 } else { (1u32 << (len - 1)) - 1 }
+}
+
+pub fn spelling_name(len: usize, joins: u32) -> &'static str {
+    let full = flat_mask(len);
+    let j = joins & full;
+    if len <= 1 {
+        "single"
+    } else if j == 0 {
+        "nested"
+    } else if j == full {
+        "flat"
+    } else {
+        "mixed"
+    }
+}
+
+pub fn random_joins(rng: &mut Rng, len: usize) -> u32 {
+    match rng.below(5) {
+        0 | 1 => 0,
+        2 | 3 => flat_mask(len),
+        _ => (rng.next_u64() as u32) & flat_mask(len),
+    }
+}
+
+/// The JSON keys under which `path` is written for a given join mask.
+pub fn spell(path: &[String], joins: u32) -> Vec<String> {
+    let mut out: Vec<String> = Vec::new();
+    for (i, seg) in path.iter().enumerate() {
+        if i > 0 && (joins >> (i - 1)) & 1 == 1 {
+            let last = out.last_mut().unwrap();
+            last.push('.');
+            last.push_str(seg);
+        } else {
+            out.push(seg.clone());
+        }
+    }
+    out
+}
+
+/// Insert `value` under the spelled keys; existing objects on the way are reused, anything else is
+/// replaced (later settings win inside one rendered document).
+pub fn insert_spelled(root: &mut Map<String, Value>, keys: &[String], value: Value) {
+    if keys.len() == 1 {
+        root.insert(keys[0].clone(), value);
+        return;
+    }
+    let e = root.entry(keys[0].clone()).or_insert_with(|| Value::Object(Map::new()));
+    if !e.is_object() {
+        *e = Value::Object(Map::new());
+    }
+    insert_spelled(e.as_object_mut().unwrap(), &keys[1..], value);
+}
+
+pub fn render(settings: &[Setting]) -> Value {
+    let mut root = Map::new();
+    for s in settings {
+        insert_spelled(&mut root, &spell(&s.path, s.joins), s.value.clone());
+    }
+    Value::Object(root)
+}
+
+/// Reference normalisation: every dotted key (at any depth) is expanded into nested objects.
+/// Objects are merged, anything else is overwritten by the later key in iteration order — callers that
+/// need an unambiguous meaning must not set one setting twice in one document.
+pub fn normalize_nested(v: &Value) -> Value {
+    match v {
+        Value::Object(m) => {
+            let mut out = Map::new();
+            for (k, val) in m {
+                let segs: Vec<String> = k.split('.').map(|s| s.to_string()).collect();
+                let inner = normalize_nested(val);
+                merge_into(&mut out, &segs, inner);
+            }
+            Value::Object(out)
+        }
+        other => other.clone(),
+    }
+}
+
+fn merge_into(root: &mut Map<String, Value>, segs: &[String], value: Value) {
+    if segs.len() == 1 {
+        match (root.get_mut(&segs[0]), value) {
+            (Some(Value::Object(a)), Value::Object(b)) => {
+                for (k, v) in b {
+                    merge_into(a, &[k], v);
+                }
+            }
+            (_, v) => {
+                root.insert(segs[0].clone(), v);
+            }
+        }
+        return;
+    }
+    let e = root.entry(segs[0].clone()).or_insert_with(|| Value::Object(Map::new()));
+    if !e.is_object() {
+        *e = Value::Object(Map::new());
+    }
+    merge_into(e.as_object_mut().unwrap(), &segs[1..], value);
+}
+
+// ───────────────────────── C31 documents ─────────────────────────
+
+/// What a hostile document contains (for fingerprints, non-triviality and signatures).
+#[derive(Clone, Debug, Default)]
+pub struct DocTraits {
+    pub settings: usize,
+    pub collisions: usize,
+    pub wrong_types: usize,
+    pub path_strings: usize,
+    pub unknown_keys: usize,
+}
+
+/// One top-level entry of a hostile document, kept separately so that witnesses can be shrunk entry-wise.
+#[derive(Clone, Debug)]
+pub struct Entry {
+    pub keys: Vec<String>,
+    pub value: Value,
+    pub what: &'static str,
+}
+
+pub fn render_entries(entries: &[Entry]) -> Value {
+    let mut root = Map::new();
+    for e in entries {
+        insert_spelled_keep(&mut root, &e.keys, e.value.clone());
+    }
+    Value::Object(root)
+}
+
+/// like insert_spelled, but a non-object on the way is *kept* when the new entry is nested below it only
+/// if it cannot be kept; used for collisions we want to survive rendering: the colliding keys are
+/// different JSON keys (`"a"` vs `"a.b"`), so both survive.
+fn insert_spelled_keep(root: &mut Map<String, Value>, keys: &[String], value: Value) {
+    if keys.len() == 1 {
+        root.insert(keys[0].clone(), value);
+        return;
+    }
+    let e = root.entry(keys[0].clone()).or_insert_with(|| Value::Object(Map::new()));
+    if let Some(m) = e.as_object_mut() {
+        insert_spelled_keep(m, &keys[1..], value);
+    }
+    // a scalar already sits there under the same JSON key: the entry cannot be expressed, drop it
+}
+
+pub fn hostile_entries(rng: &mut Rng, ks: &KeySpace) -> (Vec<Entry>, DocTraits) {
+    let mut es = Vec::new();
+    let mut tr = DocTraits::default();
+    let n = match rng.below(8) {
+        0 => 0,
+        1 => 1,
+        _ => rng.range(1, 8),
+    };
+    for _ in 0..n {
+        let key = if rng.chance(1, 3) { ks.pick_where(rng, |k| k.is_path).unwrap_or(&ks.keys[0]) } else { ks.pick(rng) };
+        let value = hostile_value(rng, key);
+        if key.is_path {
+            tr.path_strings += 1;
+        }
+        let joins = random_joins(rng, key.path.len());
+        es.push(Entry { keys: spell(&key.path, joins), value, what: "setting" });
+        tr.settings += 1;
+        // collisions: the setting's prefix as a value, or the setting as a prefix of something deeper
+        if rng.chance(1, 4) {
+            tr.collisions += 1;
+            let scalar = match rng.below(5) {
+                0 => json!(1),
+                1 => json!("s"),
+                2 => json!(true),
+                3 => json!([1]),
+                _ => json!(null),
+            };
+            match rng.below(4) {
+                0 => {
+                    // a proper prefix holds a scalar, spelled flat: {"a": 1, "a.b": v} / {"a.b": 1, "a.b.c": v}
+                    let cut = rng.range(1, key.path.len().max(2) - 1).min(key.path.len());
+                    let p: Vec<String> = key.path[..cut].to_vec();
+                    es.push(Entry { keys: vec![p.join(".")], value: scalar, what: "prefix-is-value" });
+                    // make sure the setting itself is spelled so that the two are different JSON keys
+                    let last = es.len() - 2;
+                    es[last].keys = vec![key.path.join(".")];
+                }
+                1 => {
+                    // something deeper than a scalar-valued setting: {"a.b": v, "a.b.c": 1} / {"a.b": v, "a.b.c.d": 1}
+                    let mut p = key.path.clone();
+                    p.push(word(rng));
+                    if rng.bool() {
+                        p.push(word(rng));
+                    }
+                    let last = es.len() - 1;
+                    es[last].keys = vec![key.path.join(".")];
+                    es.push(Entry { keys: vec![p.join(".")], value: scalar, what: "value-is-prefix" });
+                }
+                2 => {
+                    // nested scalar + flat deeper: {"a": {"b": 1}, "a.b.c": 2}
+                    let mut p = key.path.clone();
+                    p.push(word(rng));
+                    let last = es.len() - 1;
+                    es[last].keys = key.path.clone();
+                    es.push(Entry { keys: vec![p.join(".")], value: scalar, what: "nested-value-is-prefix" });
+                }
+                _ => {
+                    // same setting in two spellings with different values
+                    let v2 = hostile_value(rng, key);
+                    let last = es.len() - 1;
+                    es[last].keys = key.path.clone();
+                    es.push(Entry { keys: vec![key.path.join(".")], value: v2, what: "both-spellings" });
+                }
+            }
+        }
+    }
+    if rng.chance(1, 4) {
+        tr.unknown_keys += 1;
+        let k = match rng.below(7) {
+            0 => "".to_string(),
+            1 => ".".to_string(),
+            2 => "..".to_string(),
+            3 => "a..b".to_string(),
+            4 => "workspace.".to_string(),
+            5 => ".workspace".to_string(),
+            _ => format!("{}.{}", word(rng), word(rng)),
+        };
+        es.push(Entry { keys: vec![k], value: wrong_value(rng), what: "unknown-key" });
+    }
+    for e in &es {
+        if e.what == "setting" && !e.value.is_null() {
+            // counted loosely: anything produced by wrong_value
+        }
+    }
+    tr.wrong_types = es.iter().filter(|e| e.what != "setting").count();
+    (es, tr)
+}
+
+/// A non-object or otherwise odd root document.
+pub fn odd_root(rng: &mut Rng) -> Value {
+    match rng.below(8) {
+        0 => json!(null),
+        1 => json!([]),
+        2 => json!([{"diagnostics": {"enable": false}}]),
+        3 => json!("string"),
+        4 => json!(42),
+        5 => json!(true),
+        6 => json!({}),
+        _ => json!([1, 2, 3]),
+    }
+}
+
+// ───────────────────────── Lua rendering ─────────────────────────
+
+fn lua_string(s: &str) -> String {
+    let mut o = String::from("\"");
+    for b in s.bytes() {
+        match b {
+            b'"' => o.push_str("\\\""),
+            b'\\' => o.push_str("\\\\"),
+            b'\n' => o.push_str("\\n"),
+            b'\r' => o.push_str("\\r"),
+            0 => o.push_str("\\0"),
+            0x20..=0x7e => o.push(b as char),
+            _ => o.push_str(&format!("\\{}", b)),
+        }
+    }
+    o.push('"');
+    o
+}
+
+/// JSON value as a Lua expression (`null` → `nil`, arrays → sequences, objects → `["k"] = v`).
+pub fn to_lua(v: &Value) -> String {
+    match v {
+        Value::Null => "nil".into(),
+        Value::Bool(b) => b.to_string(),
+        Value::Number(n) => {
+            let s = n.to_string();
+            if s.contains("e+") || s.contains("E+") { s.replace("e+", "e").replace("E+", "e") } else { s }
+        }
+        Value::String(s) => lua_string(s),
+        Value::Array(a) => format!("{{{}}}", a.iter().map(to_lua).collect::<Vec<_>>().join(", ")),
+        Value::Object(m) => format!("{{{}}}", m.iter().map(|(k, v)| format!("[{}] = {}", lua_string(k), to_lua(v))).collect::<Vec<_>>().join(", ")),
+    }
+}
+
+/// Lua config sources that are not a plain table (syntax error, runtime error, wrong return type …).
+pub const ODD_LUA: &[&str] = &[
+    "",
+    "return",
+    "return nil",
+    "return 1",
+    "return 'str'",
+    "return function() end",
+    "return {",
+    "return {} }",
+    "error('boom')",
+    "error({})",
+    "local x = nil; return x.y",
+    "return { diagnostics = { enable = false } }, 2",
+    "return { [1] = 'a', [3] = 'c' }",
+    "return { [1.5] = 1 }",
+    "return { [true] = 1 }",
+    "return { f = function() end }",
+    "return { diagnostics = { globals = { 'a', 'b' } } }",
+    "local t = {}; t.self = t; return t",
+    "return setmetatable({}, { __index = function() error('idx') end })",
+    "return setmetatable({}, { __pairs = function() error('pairs') end })",
+    "return { workspace = { library = { '~' } } }",
+    "return { [\"a\"] = 1, [\"a.b\"] = 2 }",
+    "return require('nonexistent_module_xyz')",
+    "return { os.getenv('HOME') }",
+    "return { n = 0/0, i = 1/0, m = math.mininteger }",
+    "return { s = string.rep('x', 100000) }",
+    "return { ['\\0'] = '\\0' }",
+    "return { '\\xff\\xfe' }",
+    "\u{feff}return {}",
+    "#!shebang\nreturn {}",
+    "return coroutine",
+    "return io",
+    "goto done; ::done:: return {}",
+];
